@@ -485,6 +485,10 @@ def targets():
                attrs={("self", "time_offset"): "off", ("self", "cycle_elements"): "es", ("[]", "state"): "({x}).1",
                       ("self", "cycle_init_timesteps"): "(TrafficLightCycle_cycle_init_timesteps es off)"},
                monadic=True, doc="returns the state ordinal of the selected element"),
+        Target("TrafficLight_get_state_at_time_step", "commonroad/scenario/traffic_light.py", "get_state_at_time_step", "TrafficLight",
+               [(None, "es : List CR.TL.Elem"), (None, "off : Int"), ("time_step", "time_step : Int")], "Nat",
+               calls={"self.traffic_light_cycle.get_state_at_time_step": ("TrafficLightCycle_get_state_at_time_step es off", True)},
+               monadic=True, doc="the light delegates to its cycle (es, off are the cycle's elements and offset)"),
     ]
     return ts
 
